@@ -171,7 +171,7 @@ def cli_case(case):
                 "bad_intact": case["kind"] == "vanish" or tb.get(badname) == before_bad,
                 "changesets_same": json.dumps([{k: v for k, v in x.items() if k != "failed"} for x in rbres], sort_keys=True)
                                    == json.dumps([{k: v for k, v in x.items() if k != "failed"} for x in rgres], sort_keys=True),
-                "failed": [x["failed"] for x in rbres], "good_failed": [x["failed"] for x in rgres], "badname": badname,
+                "failed": [x["failed"] for x in rbres], "failed_by": {x["codemod"]: x["failed"] for x in rbres}, "good_failed": [x["failed"] for x in rgres], "badname": badname,
                 "bad_changed_reported": any(c["path"] == badname for x in (rb["report"] or {}).get("results", []) for c in x["changeset"])}
     finally:
         shutil.rmtree(root, ignore_errors=True)
@@ -179,6 +179,9 @@ def cli_case(case):
 
 def search(ctx):
     rng = ctx.rng
+    from codemodder.codemods.semgrep import SemgrepRuleDetector
+    from codemodder.registry import load_registered_codemods
+    sg = {c.id for c in load_registered_codemods().codemods if isinstance(c.detector, SemgrepRuleDetector)}
     kinds = list(BAD_KINDS) + ["vanish"]
     cases = []
     for k in kinds:
@@ -202,3 +205,9 @@ def search(ctx):
             pass
         elif c["kind"] in ("invalid-utf8", "nul", "syntax-error", "latin1-cookie", "vanish") and not listed and not r["bad_changed_reported"]:
             ctx.fail({"kind": "failure-not-reported", "fault": c["kind"]}, f"the {c['kind']} file was selected but is not listed in failedFiles ({r['failed']})", rep)
+        elif c["kind"] in ("invalid-utf8", "nul", "syntax-error", "latin1-cookie"):
+            # every codemod that goes through all Python files (no rule of its own) meets the bad file and must list it itself
+            silent = [k for k, f in r["failed_by"].items() if k not in sg and r["badname"] not in f]
+            if silent:
+                ctx.fail({"kind": "failure-not-reported", "fault": c["kind"], "per_codemod": True},
+                         f"the {c['kind']} file is listed as failed for some codemods of the run but not for {silent} ({r['failed_by']})", rep)
